@@ -381,6 +381,21 @@ def native_check(rp, name, fn, rng, count):
         P = m.c_rand(rng)
         F = m.c_embed(P, m.c_scalar(rng))
         SL = K4.SCALAR_LEN[name]
+        if fn == "set_mul64mu_add_mulgen_vartime":
+            u0, u1 = u & ((1 << 64) - 1), (u >> 64) & ((1 << 64) - 1)
+            if i == 3:
+                u0 = u1 = (1 << 64) - 1
+            coords = " ".join(int(x).to_bytes(K4.ENC[name], "little").hex() for x in F)
+            r_mu = K4.run_lines(rp, ["%s mu 0 %s" % (name, coords)])[0]
+            if r_mu[0] != "ok":
+                return 0, None, "cannot compute mu*P natively"
+            muP = m.c_decode(r_mu[1])[0]
+            lines.append("%s vt64 0 %s %s %s %s" % (name, coords, int(u0).to_bytes(8, "little").hex(),
+                                                    int(u1).to_bytes(8, "little").hex(),
+                                                    int(v).to_bytes(SL, "little").hex()))
+            exps.append(((u1 << 64) | u0, v, m.c_add(m.c_add(K4.c_mul(m, u0, P), K4.c_mul(m, u1, muP)),
+                                                      K4.c_mul(m, v, B))))
+            continue
         ub = int(u).to_bytes(16 if fn == "set_mul128_add_mulgen_vartime" else SL, "little").hex()
         lines.append("%s %s 0 %s %s %s" % (name, "vt128" if "128" in fn else "vt",
                                            " ".join(int(x).to_bytes(K4.ENC[name], "little").hex() for x in F),
